@@ -50,8 +50,12 @@ theorem anything_refines (o : Opts) : ∀ (v : PVal) (ctx : Ctx) (isKey : Bool),
   | .atom a, ctx, isKey, hnf, _ => by
     cases ctx with
     | field c f => exact absurd hnf (by simp [notField])
-    | member => cases hs : o.ser <;> simp [anything, shapeD, serLeaf, serAt, realise, hs]
-    | key => cases hs : o.ser <;> simp [anything, shapeD, serLeaf, serAt, realise, hs]
+    | member =>
+      cases hs : o.ser <;> cases ha : a.isScalar <;>
+        simp [anything, shapeD, serLeaf, serAt, serApplies, realise, hs, ha]
+    | key =>
+      cases hs : o.ser <;> cases ha : a.isScalar <;>
+        simp [anything, shapeD, serLeaf, serAt, serApplies, realise, hs, ha]
   | .inst c h fs, ctx, isKey, hnf, _ => by
     simp [anything, shapeD, opaqueAt_notField hnf, realise, fieldsD_refines o c fs]
   | .coll k xs, ctx, isKey, hnf, hc => by
@@ -67,7 +71,8 @@ theorem anything_refines (o : Opts) : ∀ (v : PVal) (ctx : Ctx) (isKey : Bool),
 theorem fieldD_refines (o : Opts) (c : Nat) (f : FI) : ∀ (v : PVal),
     fieldD o c f v = realise (shapeD o (.field c f) v)
   | .atom a => by
-    cases hs : o.ser <;> simp [fieldD, shapeD, serFieldAtom, serAt, realise, hs]
+    cases hs : o.ser <;> cases ha : a.isScalar <;>
+      simp [fieldD, shapeD, serFieldAtom, serAt, serApplies, realise, hs, ha]
   | .inst c' h fs => by
     by_cases hw : o.ser = .wrap
     · simp [fieldD, shapeD, opaqueAt, hw, serAt, realise]
